@@ -134,6 +134,10 @@ func c10Gen(tier string, seed int64) []ev.Case {
 	}
 	for _, cmd := range c10CmdsIn {
 		cs = append(cs, ev.MkCase("batch", c10Batch{Mode: "in", Cmd: cmd, K: -1, Seed: seed}))
+		cs = append(cs, ev.MkCase("batch", c10Batch{Mode: "in", Cmd: cmd, K: -2, Seed: seed}))
+	}
+	for _, cmd := range c10CmdsSL {
+		cs = append(cs, ev.MkCase("batch", c10Batch{Mode: "sl", Cmd: cmd, K: -2, Seed: seed}))
 	}
 	for _, p := range []string{"open", "rakp1", "rakp3"} {
 		tot := c10Total(c10HSRetry, []string{"ok"}, khs)
@@ -187,6 +191,33 @@ func c10Exec(run *ev.Run, c ev.Case) {
 					run.Violation("C10:handshake-failed", err.Error(), ev.MkCase("batch", b), nil)
 					return
 				}
+			}
+			if b.K == -2 {
+				// temporary codes followed by response data, and long runs of retryable outcomes
+				terms := []string{"ok", "cc:c1", "ccb:d4"}
+				for i, pre := range [][]string{{"busy:data"}, {"tmo:data"}, {"busy", "busy:data"}, {"busy:data", "tmo:data", "garbage:noise"}, {"tmo:data", "busy"}} {
+					for _, t := range terms {
+						c10Run(run, se, sess, c10One{Mode: b.Mode, Cmd: b.Cmd, Script: append(append([]string(nil), pre...), t), Suite: suite})
+					}
+					c10Run(run, se, sess, c10One{Mode: b.Mode, Cmd: b.Cmd, Script: append([]string(nil), pre...), CancelAt: len(pre), Suite: suite + i})
+				}
+				for _, n := range []int{14, 15, 16, 17, 31, 32, 33, 64, 100} {
+					for v := 0; v < 2; v++ {
+						var sc []string
+						for i := 0; i < n; i++ {
+							if v == 0 {
+								sc = append(sc, "busy")
+							} else {
+								sc = append(sc, retry[(i*7+n)%len(retry)])
+								if !retryable(sc[i], b.Mode == "in") || sc[i] == "lost" || sc[i] == "refused" {
+									sc[i] = "tmo"
+								}
+							}
+						}
+						c10Run(run, se, sess, c10One{Mode: b.Mode, Cmd: b.Cmd, Script: append(sc, terms[n%3]), Suite: suite})
+					}
+				}
+				return
 			}
 			if b.K == -1 {
 				for code := 1; code < 256; code++ {
@@ -250,7 +281,7 @@ func c10Cmd(kind string) (cmd ipmi.Command, okBody []byte, minBody int, hasRsp b
 
 func retryable(o string, inSession bool) bool {
 	switch {
-	case o == "busy", o == "tmo", o == "badsig", strings.HasPrefix(o, "garbage"):
+	case o == "busy", o == "tmo", o == "busy:data", o == "tmo:data", o == "badsig", strings.HasPrefix(o, "garbage"):
 		return true
 	case o == "lost", o == "refused":
 		return !inSession
